@@ -534,7 +534,9 @@ func mutate(r *Rng, b []byte) []byte {
 	if len(b) == 0 {
 		return r.Bytes(1 + r.Intn(8))
 	}
-	switch r.Intn(9) {
+	switch r.Intn(10) {
+	case 9:
+		return widen(r, b, false)
 	case 0: // truncate
 		return b[:r.Intn(len(b))]
 	case 1: // bit flip
@@ -576,6 +578,147 @@ func mutate(r *Rng, b []byte) []byte {
 		i := r.Intn(len(b))
 		j := i + r.Intn(len(b)-i)
 		return append(b[:j], b[i:]...)
+	}
+}
+
+// widen: a container header at a token boundary (the leading one included) re-declared in the 16/32-bit
+// format with a tampered count; big: a count far beyond the input (the decode runs in a child process)
+func widen(r *Rng, b []byte, big bool) []byte {
+	offs := containerOffsets(b)
+	if len(offs) == 0 {
+		return b[:r.Intn(len(b))]
+	}
+	i := offs[r.Intn(len(offs))]
+	if r.Chance(30) {
+		i = offs[0] // the leading header: the first thing every decoder reads
+	}
+	isMap, n, w := containerAt(b, i)
+	counts := []uint32{n, n + 1, n + 2, 15, 16, 255, 65535, 65536, 100000, 1 << 20, 1 << 22, 1 << 24, 1 << 27, 0x7fffffff, 0x80000000, 0xffffffff}
+	c := counts[r.Intn(len(counts))]
+	if !big && r.Chance(60) {
+		c = counts[r.Intn(8)] // mostly modest: the huge ones cost a child process each
+	}
+	if big {
+		c = counts[8+r.Intn(4)]
+		if r.Chance(10) {
+			c = counts[12+r.Intn(4)]
+		}
+	}
+	lead := byte(0xdd)
+	if isMap {
+		lead = 0xdf
+	}
+	hdr := []byte{lead, byte(c >> 24), byte(c >> 16), byte(c >> 8), byte(c)}
+	if c < 65536 && r.Bool() {
+		hdr = []byte{lead - 1, byte(c >> 8), byte(c)}
+	}
+	out := append([]byte{}, b[:i]...)
+	out = append(out, hdr...)
+	out = append(out, b[i+w:]...)
+	if r.Chance(40) {
+		out = out[:i+len(hdr)+r.Intn(len(out)-i-len(hdr)+1)] // … and nothing (or not enough) behind it
+	}
+	return out
+}
+
+// tokenSize: header width and payload length of the msgpack token at b[i:] (ok=false: cut short / 0xc1)
+func tokenSize(b []byte, i int) (hdr int, pay uint64, ok bool) {
+	be := func(i, w int) uint64 {
+		var v uint64
+		for j := 0; j < w; j++ {
+			v = v<<8 | uint64(b[i+j])
+		}
+		return v
+	}
+	c := b[i]
+	hdr = 1
+	lenw := 0
+	switch {
+	case c < 0x80, c >= 0xe0, c >= 0x80 && c < 0xa0:
+	case c >= 0xa0 && c < 0xc0:
+		pay = uint64(c & 0x1f)
+	default:
+		switch c {
+		case 0xc0, 0xc2, 0xc3:
+		case 0xc1:
+			return 0, 0, false
+		case 0xc4, 0xd9:
+			hdr, lenw = 2, 1
+		case 0xc5, 0xda:
+			hdr, lenw = 3, 2
+		case 0xc6, 0xdb:
+			hdr, lenw = 5, 4
+		case 0xc7:
+			hdr, lenw = 3, 1
+		case 0xc8:
+			hdr, lenw = 4, 2
+		case 0xc9:
+			hdr, lenw = 6, 4
+		case 0xca, 0xce, 0xd2:
+			hdr = 5
+		case 0xcb, 0xcf, 0xd3:
+			hdr = 9
+		case 0xcc, 0xd0:
+			hdr = 2
+		case 0xcd, 0xd1:
+			hdr = 3
+		case 0xd4:
+			hdr = 3
+		case 0xd5:
+			hdr = 4
+		case 0xd6:
+			hdr = 6
+		case 0xd7:
+			hdr = 10
+		case 0xd8:
+			hdr = 18
+		case 0xdc, 0xde:
+			hdr = 3
+		case 0xdd, 0xdf:
+			hdr = 5
+		}
+	}
+	if i+hdr > len(b) {
+		return 0, 0, false
+	}
+	if lenw > 0 {
+		pay = be(i+1, lenw)
+	}
+	if uint64(i)+uint64(hdr)+pay > uint64(len(b)) {
+		return 0, 0, false
+	}
+	return hdr, pay, true
+}
+
+// containerOffsets: offsets of the array / map headers among the tokens of b (flat walk from offset 0)
+func containerOffsets(b []byte) []int {
+	var offs []int
+	for i := 0; i < len(b); {
+		hdr, pay, ok := tokenSize(b, i)
+		if !ok {
+			break
+		}
+		c := b[i]
+		if c&0xf0 == 0x80 || c&0xf0 == 0x90 || (c >= 0xdc && c <= 0xdf) {
+			offs = append(offs, i)
+		}
+		i += hdr + int(pay)
+	}
+	return offs
+}
+
+// containerAt: kind, declared count and header width of the array / map header at b[i]
+func containerAt(b []byte, i int) (isMap bool, n uint32, w int) {
+	c := b[i]
+	switch {
+	case c&0xf0 == 0x80:
+		return true, uint32(c & 0x0f), 1
+	case c&0xf0 == 0x90:
+		return false, uint32(c & 0x0f), 1
+	case c == 0xdc || c == 0xde:
+		return c == 0xde, uint32(b[i+1])<<8 | uint32(b[i+2]), 3
+	default:
+		return c == 0xdf, uint32(b[i+1])<<24 | uint32(b[i+2])<<16 | uint32(b[i+3])<<8 | uint32(b[i+4]), 5
 	}
 }
 
@@ -689,6 +832,9 @@ func genCodec(o *Out, r *Rng, n int, tier string) {
 			m := mutate(r, src)
 			if r.Chance(25) {
 				m = mutate(r, m)
+			}
+			if r.Chance(12) { // a declared count far beyond the input, at any container of the message
+				m = widen(r, src, true)
 			}
 			if r.Chance(5) {
 				m = r.Bytes(r.Intn(40))
